@@ -57,7 +57,7 @@ func genC17Overlap(r *h.Rng, tier string, idx int) *h.Plan {
 			}
 		case 3:
 			op.K = "getfact"
-			op.Id = "seed"
+			op.Id = r.Pick([]string{"seed", "nope"}) // ("nope" does not exist: the request fails, its hold on the location ends all the same - once)
 		}
 		p.Ops = append(p.Ops, op)
 	}
@@ -127,7 +127,7 @@ func execC17Overlap(t *testing.T, plan *h.Plan, trace bool) *h.Result {
 			if trace {
 				tr = append(tr, fmt.Sprintf("c%d at +%dms %s -> %s", op.C, op.N, op.String(), h.Trunc(results[i], 200)))
 			}
-			if results[i] == "ERR" {
+			if results[i] == "ERR" && !(op.K == "getfact" && op.Id == "nope") {
 				opIdx = i
 				fail("request-failed", op.K, "%s: request %s failed although nothing makes it fail", name, op.String())
 				return
